@@ -199,6 +199,34 @@ func genC07(c *w1Case, r *simrt.Rng) {
 			}
 		}
 	}
+	if len(c.d.Mappings) == 1 && r.Chance(0.12) {
+		// one controller number for both sides, told apart by their channel offsets
+		ax := &c.d.Mappings[0].Analog[0].Axes[r.Intn(len(c.d.Mappings[0].Analog[0].Axes))]
+		if ax.CC != nil && ax.CCNeg != nil {
+			ax.CCNeg = ip(*ax.CC)
+			ax.HasOff, ax.HasOffNeg = true, true
+			ax.Off = r.Range(0, 15)
+			ax.OffNeg = (ax.Off + r.Range(1, 15)) % 16
+		}
+	}
+	if r.Chance(0.25) {
+		// the receiver is not fresh: an earlier session of the device (before a reconnect or a configuration
+		// reload) left values in the controllers of the axes
+		c.preCC = map[[2]int]int{}
+		for _, ax := range c.d.Mappings[0].Analog[0].Axes {
+			if ax.CC == nil || ax.CCNeg == nil {
+				continue
+			}
+			chP := (c.d.Channel-1+ax.Off)%16 + 1
+			chN := (c.d.Channel-1+ax.OffNeg)%16 + 1
+			if r.Chance(0.7) {
+				c.preCC[[2]int{chP, *ax.CC}] = r.Range(1, 127)
+			}
+			if r.Chance(0.7) {
+				c.preCC[[2]int{chN, *ax.CCNeg}] = r.Range(1, 127)
+			}
+		}
+	}
 	g := newScriptGen(r, c.d)
 	learn := c.d.Actions[0]
 	axes := c.d.Mappings[0].Analog[0].Axes
